@@ -150,6 +150,10 @@ def _body(W, kind, idx):
                 pass
         if beh in ('discard', 'discard_raise') and W.world == 'LIVE':
             rec.discard_recording()
+        if beh == 'discard_then_op' and W.world == 'LIVE':
+            # the intercepted function gives up on the recording and hands the work to another operation of the service
+            rec.discard_recording()
+            W.inner2_cls().execute()
         if beh == 'force' and W.world == 'LIVE':
             rec.force_sample_recording()
         if beh == 'nested' and W.nested_target is not None:
@@ -478,6 +482,20 @@ def build_class(prog, rec, W, decorated=True):
             raise V.Err('inner operation fails')
         return 'inner result'
 
+    def inner2_read(self, x):
+        W.journal.append(('inner2-read', W.world))
+        return ['inner2', x]
+
+    def inner2_run(self):
+        W.journal.append(('inner2-op', W.world))
+        return self.read(5)
+
+    inner2 = type(name + 'Inner2', (object,), {
+        'read': R.intercept_input('inner2.read')(inner2_read) if decorated else inner2_read,
+        'execute': R.operation()(inner2_run) if decorated else inner2_run})
+    inner2.__module__ = CLASSES_MODULE
+    setattr(_mod, name + 'Inner2', inner2)
+    W.inner2_cls = inner2
     inner = type(name + 'Inner', (object,), {'execute': R.operation()(inner_run) if decorated else inner_run})
     inner.__module__ = CLASSES_MODULE
     setattr(_mod, name + 'Inner', inner)
@@ -508,7 +526,8 @@ def build_class(prog, rec, W, decorated=True):
 
 def forget_class(cls):
     base = getattr(cls, '_verif_base', None)
-    for n in (cls.__name__, cls.__name__ + 'Inner') + ((base.__name__, base.__name__ + 'Inner') if base else ()):
+    for n in (cls.__name__, cls.__name__ + 'Inner', cls.__name__ + 'Inner2') + (
+            (base.__name__, base.__name__ + 'Inner', base.__name__ + 'Inner2') if base else ()):
         try:
             delattr(_mod, n)
         except AttributeError:
